@@ -106,8 +106,14 @@ func (csm *conditionalStorageMiddleware) ListBuckets(ctx context.Context) ([]sto
 
 	allBuckets := []storage.Bucket{}
 
-	// Include buckets from all specific storages
+	// Include buckets from all specific storages (each storage once, even if
+	// several buckets are mapped to it)
+	seen := map[storage.Storage]struct{}{csm.Next: {}}
 	for _, bucketStorage := range csm.bucketToStorageMap {
+		if _, ok := seen[bucketStorage]; ok {
+			continue
+		}
+		seen[bucketStorage] = struct{}{}
 		buckets, err := bucketStorage.ListBuckets(ctx)
 		if err != nil {
 			return nil, err
